@@ -78,6 +78,7 @@ class Engine(InterpMixin, AttrMixin):
         self.call_depth = 0
         self.loop_counter = {}
         self.held_locks = []
+        self.atexit_handlers = []
         if hasattr(self, "ghost_fs"):
             from .fsmodel import GhostFS
             self.ghost_fs = GhostFS(self)
@@ -384,6 +385,10 @@ class Engine(InterpMixin, AttrMixin):
                     r.value = e.why
             finally:
                 _cur[0] = old
+            if hasattr(self, "ghost_fs"):
+                self.ghost_fs_snapshot = dict(self.ghost_fs.files)
+                self.ghost_nops_snapshot = self.ghost_fs.nops
+            self.atexit_snapshot = list(getattr(self, "atexit_handlers", []))
             r.pc = list(self.pc)
             r.events = list(self.events)
             r.side = list(self.side)
